@@ -348,6 +348,7 @@ func txActivate(p *producerKeys, salt uint32) interfaces.Transaction {
 //     amount (cfgV1VoteAmount); the output itself is worth more than twice that;
 //   - a1 votes with a version-0 output, counted by the output value (cfgV1VoteAmount);
 //     the per-candidate amount it carries (ignored by the code) is different.
+//
 // The spec's V1Amt is what the producer is credited with in both cases.
 func v1VoteShape(voter string) (version byte, value, votes common.Fixed64) {
 	if voter == "a1" {
